@@ -70,12 +70,14 @@ def graph_case(draw, tier):
     edges = sorted(edges)
     order = draw(st.permutations(edges))
     flip = [draw(st.booleans()) for _ in order]
-    relabel = draw(st.sampled_from(["id", "id", "offset", "perm", "negative"]))
+    relabel = draw(st.sampled_from(["id", "id", "offset", "perm", "negative", "big"]))
     labels = list(range(n))
     if relabel == "perm":
         labels = list(draw(st.permutations(labels)))
     elif relabel == "offset":
         labels = [2 * i + 3 for i in range(n)]
+    elif relabel == "big":
+        labels = [10 ** 6 - 41 * x for x in draw(st.permutations(labels))]
     elif relabel == "negative":
         # vertex ids are arbitrary integers: negative ones (-1 in particular) are legal labels
         k = draw(st.integers(1, 3))
